@@ -39,7 +39,7 @@ DIRECT_METHODS = ("reboot", "bootload")
 ALIGN_PROFILE = Profile(latency=(0, 1, 25))
 
 REQUESTS = ["V", "v", "R", "QG", "QM", "S2,0,4", "C,1,2", "SM,10,1,1", "  SM,10,1,1  ",
-            "QL,3\r", "\tEM,1,1", "QT", "RB", "BL"]
+            "QL,3\r", "\tEM,1,1", "QT", "RB", "BL", "ST,Pen  Plotter", " ST,a\tb "]
 EXEMPT = ("rb", "r", "bl")              # I/O exceptions deliberately ignored (board leaves the bus)
 FAILING_CONTENT = ("wrong", "shifted", "err", "nameerr")
 
@@ -338,7 +338,7 @@ def run(ctx):
         "traces_validated_against_impl": execs,
         "evaluations": execs,
         "distinct_nontrivial": cnt.get("faulted_executions", 0),
-        "rule": "(a) command/query x 14 request strings x all environment vectors with <= "
+        "rule": "(a) command/query x 16 request strings x all environment vectors with <= "
                 f"{prim_bound} deviations; (b) {len(ops)} request-method calls (introspected) x "
                 f"all vectors with <= {meth_bound} deviations; (c) all ordered pairs of request "
                 "methods x per-reply latencies in {0,1,25}; two sessions of 60 and 97 requests on "
